@@ -28,6 +28,8 @@ def run(F, G, tier, seed):
     nullness.run_fixedidx(chk, F)
     nullness.run_optderef(chk, F)
     nullness.run_findderef(chk, F, CG, nullness.PARSE_ENTRIES)
+    nullness.run_datacast(chk, F)
+    nullness.run_countloop(chk, F, G)
     nullness.run_nullmember(chk, F, ("UTAP::TypeChecker",))
     progress.run(chk, F, CG)
     chk.assume("functions without a body in the facts (libstdc++, libxml2, libc) raise no UTAP::TypeException")
